@@ -12,6 +12,8 @@ const P: &str = "C09";
 
 pub struct Obs {
     ev: &'static Evidence,
+    /// run the stored-legacy-state check in this case
+    legacy: bool,
     pre_tree: Option<Vec<u8>>,
     /// leaf private key bytes each member held before the commit (party -> key)
     pre_leaf_keys: BTreeMap<usize, (Vec<u8>, Vec<u8>)>,
@@ -36,7 +38,55 @@ impl Obs {
         let suite = w.cfg.suite;
         let party = &w.parties[m];
         let cs = party.suite_provider(suite);
-        let g = party.g();
+        let g = party.g().clone();
+        self.check_group(&g, &cs, m, how)
+    }
+
+    /// A state stored by an earlier version of the library with a pending commit in the old format
+    /// (`/repo/mls-rs/test_data/legacy_snapshot.mls`, the only such state there is) is loaded and its pending commit applied
+    /// through `apply_pending_commit_backwards_compatible`: the member's private keys must be those of the new tree.
+    fn legacy_pending_commit(&mut self, w: &mut World) -> CaseResult {
+        use mls_rs_core::group::{GroupState, GroupStateStorage};
+        let Ok(bytes) = std::fs::read("/repo/mls-rs/test_data/legacy_snapshot.mls") else {
+            self.ev.class("legacy_snapshot_not_available");
+            return Ok(());
+        };
+        let p = w.new_party();
+        let party = &mut w.parties[p];
+        let mut store = party.gstore.clone();
+        store
+            .write(GroupState { id: b"group".to_vec(), data: bytes.into() }, vec![], vec![])
+            .map_err(|e| Failure::new(format!("{P}|harness|legacy_state_not_storable"), format!("{e:?}")))?;
+        let mut g = match guard(|| party.client.load_group(b"group")) {
+            Ok(g) => g,
+            Err(e) if e.is_panic() => return Err(panic_failure(P, "load_group(legacy state)", &e)),
+            Err(e) => {
+                // not loadable with this provider / configuration: nothing to check
+                self.ev.class(&format!("legacy_state_not_loadable:{}", e.class()));
+                return Ok(());
+            }
+        };
+        let cs = party.crypto.suite(g.cipher_suite());
+        let Some(cs) = cs else {
+            self.ev.class("legacy_state_suite_not_supported_by_provider");
+            return Ok(());
+        };
+        let before = g.verif_private_tree().1;
+        match guard(|| g.apply_pending_commit_backwards_compatible()) {
+            Ok(_) => {}
+            Err(e) if e.is_panic() => return Err(panic_failure(P, "apply_pending_commit_backwards_compatible", &e)),
+            Err(e) => return Err(fail(&format!("legacy_pending_commit_not_applicable|{}", e.class()), e.text().into())),
+        }
+        let after = g.verif_private_tree().1;
+        if before.first() == after.first() {
+            return Err(fail("leaf_key_not_replaced|legacy_pending_commit", "the pending commit changed the member's leaf but the stored leaf private key is the old one".into()));
+        }
+        self.check_group(&g, &cs, p, "legacy_pending_commit")?;
+        self.ev.class("legacy_pending_commit_applied_and_checked");
+        Ok(())
+    }
+
+    fn check_group(&mut self, g: &VGroup, cs: &crate::providers::VSuite, m: usize, how: &str) -> CaseResult {
         let bytes = g.export_tree().to_bytes().map_err(|e| fail("export_tree_failed", format!("{e:?}")))?;
         let t = RefTreeNodes::parse(&bytes).ok_or_else(|| fail("exported_tree_unparsable", String::new()))?;
         let (leaf, keys) = g.verif_private_tree();
@@ -87,6 +137,9 @@ impl Obs {
 
 impl Observer for Obs {
     fn before_commit(&mut self, w: &mut World, _committer: usize) -> CaseResult {
+        if std::mem::take(&mut self.legacy) {
+            self.legacy_pending_commit(w)?;
+        }
         self.pre_tree = w.members().first().map(|m| w.parties[*m].g().export_tree().to_bytes().unwrap_or_default());
         self.pre_leaf_keys.clear();
         for m in w.members() {
@@ -204,10 +257,11 @@ pub fn run(ctx: &Ctx) -> ! {
          public key opens with the stored key; no key beyond the path; after a commit with path every non-blank node on the committer's filtered direct path and its leaf \
          carry public keys absent from the previous epoch's tree; a member whose leaf public key changed no longer stores the old leaf private key. \
          Classes by role: committer, receiver near/far (LCA level with the committer), Welcome joiner, external joiner, reloaded. \
+         One case in eight also loads the shipped legacy-format state (mls-rs/test_data/legacy_snapshot.mls, a fixed input), applies its pending commit through apply_pending_commit_backwards_compatible and checks the keys the same way. \
          Non-trivial = (epoch, member) checks of receivers and joiners (distinct by epoch, member and tree prefix).",
         &hp,
         spec,
-        &|_, ev| Obs { ev, pre_tree: None, pre_leaf_keys: BTreeMap::new(), keys_checked: 0, members_checked: 0 },
+        &|case, ev| Obs { ev, legacy: case.c(9) % 8 == 0, pre_tree: None, pre_leaf_keys: BTreeMap::new(), keys_checked: 0, members_checked: 0 },
         &|_, o| {
             o.ev.class_n("private_keys_checked", o.keys_checked);
             o.ev.class_n("member_states_checked", o.members_checked);
